@@ -244,10 +244,11 @@ PROPS = {
         trusted=S_COMMON + T_SOLVER + ["model: np.mean(list) = ghost prefix sum / length"],
     ),
     "C18": dict(
-        functions=[CT + "Continuum." + m for m in ("to_csv", "from_csv", "__iter__", "add", "__init__")] + [CT + "Unit.__lt__"],
+        functions=[CT + "Continuum." + m for m in ("to_csv", "from_csv", "add_annotation", "from_rttm", "__iter__", "add", "__init__")] + [CT + "Unit.__lt__"],
         oracles=[CT + "Continuum.to_csv"],
         bounded=[dict(oracle=CT + "Continuum.to_csv",
-                      what="add_textgrid / add_elan / from_rttm / add_annotation are not under contract (third-party parsers): generated TextGrid, "
+                      what="add_annotation and from_rttm are proved over ASSUMED models of pyannote's Annotation (the list of its tracks) and of load_rttm "
+                           "(some dict uri -> Annotation); add_textgrid / add_elan are not under contract (third-party objects): generated TextGrid, "
                            "ELAN and RTTM files (tier selections, both label modes, empty marks) read back against what was written; csv round trips "
                            "with delimiters , ; tab |, quotes, unicode, line feeds and carriage returns inside fields; zero-length rows")],
         design_ref="DESIGN.md section 4 C18 (X1-X5)",
